@@ -155,8 +155,11 @@ def run(res):
         "halting_programs": n_h, "certified_divergent_programs": n_d, "budgets": budgets, "stats": stats, "backends": BACKENDS,
         "distribution": P.distribution(cases),
     })
-    res.coverage["theorems"] = ["C07_ir_finished_is_complete", "C07_ir_interrupted_is_prefix", "C07_ir_returns", "C07_ir_large_budget", "C07_ir_divergent_never_finished", "C07_bc_limited_is_prefix", "C04_inplace_prefix (in-place engine)"]
-    res.assumptions += ["IR interpreter: theorems of Props/C07.v prove, for every IR program, state, environment and budget, that the limited run of IR.v is a prefix of / equal to the unlimited run, returns within depth size+budget, and equals the unlimited run for every large enough budget; their tie to the code is the comparison of IR.v's limited semantics with execute_limited on every generated program x budget (model_compared in stats); bytecode interpreter: C07_bc_limited_is_prefix (finished => equal to the unlimited BC.v run, interrupted => prefix) tied the same way; the JIT is decided per program only"]
+    from .. import forms
+    jst = forms.run_jit_programs(res, cases[:: (3 if res.tier == "quick" else 1)], [0, 2], limited=True)
+    stats["jit_limited_code"] = jst
+    res.coverage["theorems"] = ["C07_jit_limit_template", "C07_ir_finished_is_complete", "C07_ir_interrupted_is_prefix", "C07_ir_returns", "C07_ir_large_budget", "C07_ir_divergent_never_finished", "C07_bc_limited_is_prefix", "C04_inplace_prefix (in-place engine)"]
+    res.assumptions += ["IR interpreter: theorems of Props/C07.v prove, for every IR program, state, environment and budget, that the limited run of IR.v is a prefix of / equal to the unlimited run, returns within depth size+budget, and equals the unlimited run for every large enough budget; their tie to the code is the comparison of IR.v's limited semantics with execute_limited on every generated program x budget (model_compared in stats); bytecode interpreter: C07_bc_limited_is_prefix (finished => equal to the unlimited BC.v run, interrupted => prefix) tied the same way; JIT: the budget check emitted before every branch in limited mode is validated in every generated program's machine code against the template of theorem C07_jit_limit_template (leaves through the termination path iff budget <= 1, else decrements: the decision of BC.bc_limit 1); the rest of the JIT's limited run is decided per program"]
     res.assumptions += ["'returns in time bounded by the budget' is observed as return within 20 s for budgets <= 65536 (wall clock), not proved for the implementation"]
     if broken and not res.violations:
         res.violation("proof side of C07 no longer checks: " + "; ".join(broken)[:1500],
